@@ -5,7 +5,7 @@ from . import static_common
 # generator classes of listed findings (see known_findings.json); switched on again when the witness stops failing
 EXCLUDED = {"cmp_value", "logical_mixed", "compound_assign_narrow", "div", "calls_mixed_tmp_width", "const_cmp",
             "const_cond"}   # const_cond: declaration bookkeeping of folded ?: is judged by C09/C11/C12
-FEATURES = gen.ALL_FEATURES - EXCLUDED
+FEATURES = gen.STATIC_FEATURES - EXCLUDED
 
 
 def run_check(ctx):
